@@ -24,6 +24,12 @@ import UxVerif.Gen.Defaults
 namespace UxVerif.C06
 open UxVerif UxVerif.Integrate
 
+/-- acceptance of a face-centred variable needs no algebra at all (used at `ExtVal`) -/
+theorem integrate_accepts' {K : Type} [Add K] [Mul K] [OfNat K 0] (g : Grid) (areas : List K)
+    (a : Arr K) (h : FaceCentred g a) : integrate g areas a = .ok (result areas a) := by
+  obtain ⟨hd, hs, _⟩ := h
+  simp [integrate, hd, hs]
+
 section Semiring
 variable {K : Type} [CommSemiring K]
 
@@ -517,6 +523,242 @@ example : runIdCache [] [procA, { procB with addr := 101 }] = runProcess [procA,
   decide
 example : (runProcess ([procA] ++ procB :: []))[[procA].length]? = some (integrate procB.g procB.areas procB.a) :=
   process_independent [procA] procB []
+
+/-! ### special values: NaN and ±∞ in the data
+
+  `integrate` over `ExtVal` (the same model function, IEEE rules on the special values, exact
+  rationals on finite ones).  A NaN on one face of a row makes that row's integral NaN — it is
+  never skipped; on finite data the extended model is the rational model.  xarray's
+  `sum(skipna=True)` (seeded variant C06g, `dotSkipNaN`) has the counterexample
+  `skipna_drops_nan`. -/
+
+section Ext
+open ExtVal
+
+theorem dot_cons' {K : Type} [Add K] [Mul K] [OfNat K 0] (x y : K) (a r : List K) :
+    dot (x :: a) (y :: r) = x * y + dot a r := rfl
+
+theorem ext_nan_add (x : ExtVal) : (ExtVal.nan + x : ExtVal) = ExtVal.nan := rfl
+theorem ext_add_nan (x : ExtVal) : (x + ExtVal.nan : ExtVal) = ExtVal.nan := by cases x <;> rfl
+theorem ext_mul_nan (x : ExtVal) : (x * ExtVal.nan : ExtVal) = ExtVal.nan := by cases x <;> rfl
+theorem ext_fin_add (a b : Rat) : (ExtVal.fin a + ExtVal.fin b : ExtVal) = ExtVal.fin (a + b) := rfl
+theorem ext_fin_mul (a b : Rat) : (ExtVal.fin a * ExtVal.fin b : ExtVal) = ExtVal.fin (a * b) := rfl
+
+/-- **a NaN term makes the weighted sum NaN**, wherever it stands and whatever the other values
+    (finite, ±∞, NaN) and areas are -/
+theorem dot_nan_propagates (areas : List Rat) : ∀ (row : List ExtVal) (f : Nat),
+    f < areas.length → row[f]? = some ExtVal.nan →
+    dot (areas.map ExtVal.fin) row = ExtVal.nan := by
+  induction areas with
+  | nil => intro row f hf; simp at hf
+  | cons a as ih =>
+    intro row f hf hrow
+    cases row with
+    | nil => simp at hrow
+    | cons d ds =>
+      simp only [List.map_cons, dot_cons']
+      cases f with
+      | zero =>
+        simp only [List.getElem?_cons_zero, Option.some.injEq] at hrow
+        subst hrow
+        rw [ext_mul_nan, ext_nan_add]
+      | succ f =>
+        simp only [List.getElem?_cons_succ] at hrow
+        rw [ih ds f (by simpa using hf) hrow, ext_add_nan]
+
+/-- **NaN propagates through `integrate`**: if face `f` of leading index `i` holds NaN, element `i`
+    of the result is NaN — for every grid, rank and every other value in the array -/
+theorem integrate_nan_propagates (g : Grid) (areas : List Rat) (a : Arr ExtVal)
+    (h : FaceCentred g a) (ha : areas.length = g.nFace) (i f : Nat)
+    (hi : i < prodL a.shape.dropLast) (hf : f < g.nFace)
+    (hnan : a.data[i * g.nFace + f]? = some ExtVal.nan) :
+    ∃ r, integrate g (areas.map ExtVal.fin) a = .ok r ∧ r.data[i]? = some ExtVal.nan := by
+  refine ⟨_, integrate_accepts' g _ a h, ?_⟩
+  simp only [result, integrateData, List.getElem?_map, List.length_map, ha]
+  rw [rowsOf_getElem? _ _ _ _ hi]
+  simp only [Option.map_some]
+  congr 1
+  apply dot_nan_propagates areas _ f (by omega)
+  rw [rowAt_getElem? _ _ _ _ hf]
+  exact hnan
+
+/-- on finite data the extended model IS the rational model (conservative extension) -/
+theorem dot_ext_finite (areas : List Rat) : ∀ qs : List Rat,
+    dot (areas.map ExtVal.fin) (qs.map ExtVal.fin) = ExtVal.fin (dot areas qs) := by
+  induction areas with
+  | nil => intro qs; cases qs <;> rfl
+  | cons a as ih =>
+    intro qs
+    cases qs with
+    | nil => rfl
+    | cons q qs => simp only [List.map_cons, dot_cons', ih qs, ext_fin_mul, ext_fin_add]
+
+theorem integrateData_ext_finite (areas : List Rat) (m : Nat) (data : List Rat) :
+    integrateData (areas.map ExtVal.fin) m (data.map ExtVal.fin) =
+      (integrateData areas m data).map ExtVal.fin := by
+  simp only [integrateData, List.length_map, rowsOf_map, List.map_map]
+  apply List.map_congr_left
+  intro r _
+  simp [dot_ext_finite]
+
+theorem ext_add_fin_inv {x y : ExtVal} {v : Rat} (h : (x + y : ExtVal) = ExtVal.fin v) :
+    ∃ a b, x = ExtVal.fin a ∧ y = ExtVal.fin b ∧ v = a + b := by
+  cases x <;> cases y
+  case fin.fin a b => exact ⟨a, b, rfl, rfl, by cases h; rfl⟩
+  all_goals cases h
+
+theorem ext_fin_mul_inv {a : Rat} {d : ExtVal} {w : Rat}
+    (h : (ExtVal.fin a * d : ExtVal) = ExtVal.fin w) : ∃ q, d = ExtVal.fin q ∧ w = a * q := by
+  cases d with
+  | nan => cases h
+  | pinf =>
+    change ExtVal.infTimes true a = _ at h
+    unfold ExtVal.infTimes at h; split at h
+    · cases h
+    · split at h <;> cases h
+  | ninf =>
+    change ExtVal.infTimes false a = _ at h
+    unfold ExtVal.infTimes at h; split at h
+    · cases h
+    · split at h <;> cases h
+  | fin q => exact ⟨q, rfl, by cases h; rfl⟩
+
+/-- a finite extended sum is the rational sum of the (then necessarily finite) entries -/
+theorem dot_ext_fin_inv (areas : List Rat) : ∀ (row : List ExtVal) (v : Rat),
+    dot (areas.map ExtVal.fin) row = ExtVal.fin v →
+    dot areas ((row.take areas.length).filterMap ExtVal.toRat?) = v := by
+  induction areas with
+  | nil =>
+    intro row v h
+    have : (ExtVal.fin 0 : ExtVal) = ExtVal.fin v := by
+      cases row <;> exact h
+    cases this; rfl
+  | cons a as ih =>
+    intro row v h
+    cases row with
+    | nil =>
+      have : (ExtVal.fin 0 : ExtVal) = ExtVal.fin v := h
+      cases this; rfl
+    | cons d ds =>
+      simp only [List.map_cons, dot_cons'] at h
+      obtain ⟨w, v', hw, hv', rfl⟩ := ext_add_fin_inv h
+      obtain ⟨q, rfl, rfl⟩ := ext_fin_mul_inv hw
+      simp only [List.length_cons, List.take_succ_cons, List.filterMap_cons, ExtVal.toRat?, dot_cons]
+      rw [ih ds v' hv']
+
+/-- the extended model's own value satisfies the extended value clause -/
+theorem closeE_self (areas : List Rat) (row : List ExtVal) :
+    CloseE areas row (dot (areas.map ExtVal.fin) row) := by
+  unfold CloseE
+  cases hd : dot (areas.map ExtVal.fin) row with
+  | nan => trivial
+  | pinf => trivial
+  | ninf => trivial
+  | fin v =>
+    simp only
+    rw [← dot_ext_fin_inv areas row v hd]
+    exact close_exact _ _
+
+theorem failedClausesE_nil_iff (g : Grid) (areas : List Rat) (a : Arr ExtVal) (o : ObsE) :
+    failedClausesE g areas a o = [] ↔ SpecE g areas a o := by
+  unfold failedClausesE SpecE
+  by_cases hf : FaceCentred g a <;> by_cases hn : NodeOrEdge a <;>
+    by_cases hz : SizedUnnamed g a <;> cases o <;> simp [hf, hn, hz]
+
+/-- **refinement on special values**: the model run over extended values satisfies `SpecE` -/
+theorem integrateE_meets_spec (g : Grid) (areas : List Rat) (a : Arr ExtVal) :
+    SpecE g areas a (obsEOf (integrate g (areas.map ExtVal.fin) a)) := by
+  refine ⟨?_, ?_, ?_⟩
+  · intro h
+    rw [integrate_accepts' g _ a h]
+    refine ⟨_, rfl, ⟨rfl, ⟨rfl, by simp [result, integrateData]⟩, rfl, rfl⟩, ?_⟩
+    intro i hi
+    refine ⟨dot (areas.map ExtVal.fin) (rowAt areas.length a.data i), ?_, closeE_self _ _⟩
+    simp only [result, integrateData, List.getElem?_map, List.length_map]
+    rw [rowsOf_getElem? _ _ _ _ hi]; rfl
+  · intro h
+    rcases h with h | h <;> simp [integrate, h, obsEOf]
+  · intro h
+    have hne : a.dims.getLast? ≠ some Dim.face := by
+      intro hf
+      have := h.1
+      simp [NonGridName, hf, Dim.isOther] at this
+    unfold integrate
+    split
+    · exact absurd ‹_› hne
+    all_goals rfl
+
+/-- **seeded variant C06g**: a NaN-skipping sum returns the finite sum of the other faces (3
+    instead of NaN), integrates an all-NaN row to 0, and fails the specification's value clause -/
+theorem skipna_drops_nan :
+    dotSkipNaN [1, 1] [ExtVal.nan, ExtVal.fin 3] = ExtVal.fin 3 ∧
+    dot ([1, 1].map ExtVal.fin) [ExtVal.nan, ExtVal.fin 3] = ExtVal.nan ∧
+    dotSkipNaN [1, 1] [ExtVal.nan, ExtVal.nan] = ExtVal.fin 0 ∧
+    ¬ CloseE [1, 1] [ExtVal.nan, ExtVal.fin 3] (dotSkipNaN [1, 1] [ExtVal.nan, ExtVal.fin 3]) := by
+  have h1 : dotSkipNaN [1, 1] [ExtVal.nan, ExtVal.fin 3] = ExtVal.fin 3 := by
+    show ExtVal.fin (1 * 3 + 0) = ExtVal.fin 3
+    norm_num
+  have h2 : dot ([1, 1].map ExtVal.fin) [ExtVal.nan, ExtVal.fin 3] = ExtVal.nan := rfl
+  refine ⟨h1, h2, rfl, ?_⟩
+  rw [h1]
+  unfold CloseE
+  rw [h2]
+  exact fun h => h
+
+/-- the skipping sum is right exactly on the class it was written for: no NaN in the row and no
+    zero area (so that no product is NaN) -/
+theorem skipna_partial (areas : List Rat) : ∀ row : List ExtVal,
+    (∀ d ∈ row, d ≠ ExtVal.nan) → (∀ a ∈ areas, a ≠ 0) →
+    dotSkipNaN areas row = dot (areas.map ExtVal.fin) row := by
+  induction areas with
+  | nil => intro row _ _; cases row <;> rfl
+  | cons a as ih =>
+    intro row hrow hz
+    cases row with
+    | nil => rfl
+    | cons d ds =>
+      have ih' := ih ds (fun x hx => hrow x (by simp [hx])) (fun x hx => hz x (by simp [hx]))
+      have ha : a ≠ 0 := hz a (by simp)
+      have hd : d ≠ ExtVal.nan := hrow d (by simp)
+      simp only [dotSkipNaN, List.map_cons, dot_cons']
+      have hprod : (ExtVal.fin a * d : ExtVal) ≠ ExtVal.nan := by
+        cases d with
+        | nan => exact absurd rfl hd
+        | pinf =>
+          change ExtVal.infTimes true a ≠ _
+          unfold ExtVal.infTimes; rw [if_neg ha]; split <;> simp
+        | ninf =>
+          change ExtVal.infTimes false a ≠ _
+          unfold ExtVal.infTimes; rw [if_neg ha]; split <;> simp
+        | fin q => simp [ext_fin_mul]
+      split
+      · exact absurd ‹_› hprod
+      · rw [ih']
+
+-- non-vacuity: a 2×2 array with one NaN; the NaN row integrates to NaN, the other to 5·1 + 7·2
+example : integrate { nFace := 2, nNode := 4, nEdge := 5, gid := 1 } ([5, 7].map ExtVal.fin)
+    { dims := [Dim.other 0, Dim.face], shape := [2, 2],
+      data := [ExtVal.fin 1, ExtVal.fin 2, ExtVal.nan, ExtVal.fin 4], name := none, grid := 1 } =
+    .ok { dims := [Dim.other 0], shape := [2], data := [ExtVal.fin 19, ExtVal.nan], name := none, grid := 1 } := by
+  have hz : (0 : ExtVal) = ExtVal.fin 0 := rfl
+  simp [integrate, result, integrateData, rowsOf, prodL, dot, hz, ext_fin_mul, ext_fin_add,
+    ext_mul_nan, ext_nan_add]
+  norm_num
+-- ∞ − ∞ and ∞·0 are NaN, +∞ alone stays +∞
+example : dot ([1, 1].map ExtVal.fin) [ExtVal.pinf, ExtVal.ninf] = ExtVal.nan ∧
+    dot ([0, 1].map ExtVal.fin) [ExtVal.pinf, ExtVal.fin 2] = ExtVal.nan ∧
+    dot ([2, 1].map ExtVal.fin) [ExtVal.pinf, ExtVal.fin 2] = ExtVal.pinf := by
+  refine ⟨rfl, ?_, ?_⟩
+  · show (ExtVal.infTimes true 0 + (ExtVal.fin (1 * 2) + ExtVal.fin 0) : ExtVal) = ExtVal.nan
+    simp [ExtVal.infTimes]; rfl
+  · show (ExtVal.infTimes true 2 + (ExtVal.fin (1 * 2) + ExtVal.fin 0) : ExtVal) = ExtVal.pinf
+    simp [ExtVal.infTimes]; rfl
+example : (∀ d ∈ [ExtVal.pinf, ExtVal.fin 2], d ≠ ExtVal.nan) ∧ (∀ a ∈ ([2, 1] : List Rat), a ≠ 0) := by
+  constructor
+  · intro d hd; simp at hd; rcases hd with rfl | rfl <;> simp
+  · intro a ha; simp at ha; rcases ha with rfl | rfl <;> norm_num
+
+end Ext
 
 /-! ### the float tolerance of the specification is a theorem, for ANY order of summation
 
